@@ -550,7 +550,34 @@ def unit_bounded_two_levels(U):
                      "1-3 exons x both strands, exons with Parent=<transcript>,<locus>; bed12 of the locus and of the transcript", cases, fails, distinct=cases)
 
 
-UNITS = [("len_sequence", unit_len_sequence), ("sequence.filename", unit_sequence_filename), ("bed12", unit_bed12), ("to_bed12", unit_to_bed12), ("bounded.two_levels", unit_bounded_two_levels)]
+def unit_bounded_switch(U):
+    """Bounded: bed12 / to_bed12 / len / sequence give the same answer whatever constants.always_return_list is set to (and leave
+    it as it was)"""
+    import gffutils
+    from gffutils import constants as K
+    import gffutils.convert as CV_
+    fails, cases = [], 0
+    mk = lambda i, ft, a, b, par=None: F.Feature(seqid="chr1", source="s", featuretype=ft, start=a, end=b, strand="+", attributes=dict({"ID": [i]}, **({"Parent": par} if par else {})))
+    feats = [mk("txPlus1", "mRNA", 10, 90), mk("ex1", "exon", 10, 30, ["txPlus1"]), mk("ex2", "exon", 50, 90, ["txPlus1"]), mk("cds1", "CDS", 20, 30, ["txPlus1"]), mk("cds2", "CDS", 50, 70, ["txPlus1"])]
+    old = K.always_return_list
+    try:
+        K.always_return_list = True
+        db = gffutils.create_db(feats, ":memory:")
+        want = [db.bed12("txPlus1"), db.bed12(db["txPlus1"]), db.bed12("txPlus1", name_field="Name"), CV_.to_bed12(db["txPlus1"], db), len(db["ex1"])]
+        for setting in (False, True):
+            K.always_return_list = setting
+            cases += 1
+            try:
+                got = [db.bed12("txPlus1"), db.bed12(db["txPlus1"]), db.bed12("txPlus1", name_field="Name"), CV_.to_bed12(db["txPlus1"], db), len(db["ex1"])]
+            except Exception as e:
+                got = "raised %r" % (e,)
+            if got != want or K.always_return_list is not setting:
+                fails.append({"case": {"always_return_list": setting}, "expected": want, "observed": got, "switch afterwards": K.always_return_list})
+    finally:
+        K.always_return_list = old
+    U.bounded_result("C18.bounded.switch", "the exports do not depend on constants.always_return_list and leave it alone", "one transcript (2 exons, 2 CDS) x both settings x 5 exports", cases, fails)
+
+UNITS = [("bounded.switch", unit_bounded_switch), ("len_sequence", unit_len_sequence), ("sequence.filename", unit_sequence_filename), ("bed12", unit_bed12), ("to_bed12", unit_to_bed12), ("bounded.two_levels", unit_bounded_two_levels)]
 try:
     from standins import C18 as _S
     UNITS = UNITS + list(_S.UNITS)
